@@ -2209,8 +2209,9 @@ class TextQueryBackend(Backend):
                 and enclosing[0] in self.precedence
                 and self.precedence.index(cast(Any, enclosing[0]))
                 < self.precedence.index(ConditionOR)
-                and self.group_expression is not None
             ):
+                if self.group_expression is None:
+                    raise NotImplementedError("Group expressions are not supported by the backend")
                 converted = self.group_expression.format(expr=converted)
             return converted
 
